@@ -23,15 +23,17 @@ namespace opensmt::verif {
 struct Announced {
     void const * owner = nullptr;
     FILE * sink = nullptr;
+    unsigned long epoch = 0;
     std::vector<char> vars;
     std::unordered_set<uint32_t> symbols;
 };
 
 inline Announced & announced(void const * owner) {
     static Announced a;
-    if (a.owner != owner or a.sink != state().sink) {
+    if (a.owner != owner or a.sink != state().sink or a.epoch != state().epoch) {
         a.owner = owner;
         a.sink = state().sink;
+        a.epoch = state().epoch;
         a.vars.clear();
         a.symbols.clear();
     }
